@@ -262,8 +262,8 @@ func TestVerif_C08(t *testing.T) {
 	if t.Failed() {
 		return
 	}
-	if vfOnlySub("huge") && !vfReplayMode() && vfShard() < 3 {
-		// valid documents of 70 KB - 2.5 MB, whole and cut
+	if vfOnlySub("huge") && !vfReplayMode() && (vfShard() < 2 || (vfShard() == 2 && vfThorough())) {
+		// valid documents of 70 KB - 2.5 MB (the largest in the thorough tier only), whole and cut
 		n := []int{70000, 1100000, 2500000}[vfShard()]
 		for _, kind := range []string{"json-array", "geojson-decider-last"} {
 			doc := vfBig(kind, n)
@@ -280,6 +280,28 @@ func TestVerif_C08(t *testing.T) {
 			}
 		}
 		vfStats.Subchecks["huge"] = "documents of 70 KB / 1.1 MB / 2.5 MB (one size per shard 0-2) at limits {0, 65536, 65537, 1 MiB, len-1, len, len+1, 2^32-1}"
+	}
+	if t.Failed() {
+		return
+	}
+	if vfOnlySub("maxlimit") && !vfReplayMode() && vfShard() == 3%vfNShards() {
+		doc := []byte(`{"k":[1,2,{"a":"b"}],"s":"text"}`)
+		for _, L := range []uint32{0xfffff800} {
+			SetLimit(L)
+			m, err := DetectReader(bytes.NewReader(doc))
+			SetLimit(defaultLimit)
+			var r vfResult
+			r.Nontrivial, r.Labels, r.Hash = true, []string{"reader-limit-near-2^32"}, vfHash(doc, vfHashU(uint64(L)))
+			if err != nil || !c08IsJSONFamily(m) {
+				r.Err = fmt.Errorf("DetectReader under limit %d reports (%s, %v) for %s", L, vfChainStr(m), err, doc)
+			}
+			vfStats.record(r, func() any { return map[string]any{"sub": "maxlimit", "limit": L} })
+			if r.Err != nil {
+				lim := L
+				vfEnumFail(t, "C08", "gen", c08Case{Doc: doc, Limit: &lim}, r.Err)
+				return
+			}
+		}
 	}
 	if t.Failed() {
 		return
